@@ -8,7 +8,7 @@
 (*     "REJ {id, clause, detail}"   (one JSON object, one line)            *)
 (* and the run continues, so every record gets a verdict.                  *)
 (***************************************************************************)
-EXTENDS Eval, NormPath, Json, IOUtils
+EXTENDS Canon, ErrorPos, Json, IOUtils
 
 Tr == ndJsonDeserialize(IOEnv.TRACE_FILE)
 
@@ -95,8 +95,39 @@ VProbe(r) ==
                                             <<ToJson(want \ got), ToJson(got \ want)>>)
                  ELSE Acc
 
+(* ---- error positions (C19) ------------------------------------------------ *)
+\* r.index: err.token.index; r.line, r.col: as printed in str(err)
+VErrPos(r) ==
+    IF r.index < 0 \/ r.index > Len(r.q) THEN Rej("C19 error offset outside the query text", <<r.index>>)
+    ELSE LET p == Position(r.q, r.index)
+         IN  IF <<r.line, r.col>> # p THEN Rej("C19 printed line/column is not the position of the offset", <<p[1], p[2]>>)
+             ELSE Acc
+
+(* ---- str(query) round trip (C12) ------------------------------------------- *)
+\* r.s = str(compile(r.q)); r.recompiles; r.s2 = str(compile(r.s)); r.docs: witness pool
+VStr(r) ==
+    LET reg == RegOf(r)
+        cv  == CompileVerdict(r.q, reg, LoOf(r), HiOf(r))
+    IN  IF cv.v # "accept" THEN Acc
+        ELSE LET a1 == Parse(r.q, FALSE).v
+                 cs == CompileVerdict(r.s, reg, LoOf(r), HiOf(r))
+             IN  IF cs.v = "reject" THEN Rej("C12 str() text is not a valid query", <<cs.why, cs.msg, cs.at>>)
+                 ELSE IF cs.v = "either" THEN Acc
+                 ELSE IF ~r.recompiles THEN Rej("C12 str() text does not compile", <<>>)
+                 ELSE IF r.s2 # r.s THEN Rej("C12 serialising again gives a different text", <<>>)
+                 ELSE IF ~StringsCanonical(r.s) THEN Rej("C12 a string literal is not in canonical form", <<>>)
+                 ELSE LET a2 == Parse(r.s, FALSE).v
+                      IN  IF NF(a1) = NF(a2) THEN Acc
+                          ELSE IF \E k \in 1..Len(r.docs) :
+                                     /\ ~DcSegs(a1, r.docs[k], reg)
+                                     /\ Find(a1, r.docs[k], reg) # Find(a2, r.docs[k], reg)
+                               THEN Rej("C12 str() text selects different nodes", <<>>)
+                          ELSE Acc
+
 Verdict(r) ==
     CASE r.op = "compile" -> VCompile(r)
+      [] r.op = "errpos"  -> VErrPos(r)
+      [] r.op = "str"     -> VStr(r)
       [] r.op = "find"    -> VFind(r)
       [] r.op = "probe"   -> VProbe(r)
       [] OTHER -> Rej("unknown record kind", <<r.op>>)
